@@ -18,7 +18,47 @@ from . import effects
 
 import re as _re
 
+_ARR_RE = _re.compile(r"^&(?:mut )?\[[^;\]]+; (\d+)\]$")
 _PROMOTED_RE = _re.compile(r"^_1 = (.*?); _0 = &_1; $")
+def _promoted_value(text, ty):
+    """value of a promoted constant from the text of its MIR (`_1 = const 0_u8; _2 = &_1; _0 = &_2;`)"""
+    defs = {}
+    for part in text.split(";"):
+        part = part.strip()
+        if " = " in part:
+            l, r = part.split(" = ", 1)
+            defs[l.strip()] = r.strip()
+    cur = defs.get("_0")
+    depth = 0
+    while cur is not None and cur.startswith("&"):
+        inner = cur[1:].strip()
+        if inner.startswith("mut "):
+            inner = inner[4:].strip()
+        m2_ = _re.match(r"^\(\*(_\d+)\)$", inner)
+        if m2_:
+            # a reborrow &(*_n): same referent as _n's
+            cur = defs.get(m2_.group(1))
+            if cur is None or not cur.startswith("&"):
+                return None
+            continue
+        depth += 1
+        cur = defs.get(inner)
+        if depth > 4:
+            return None
+    if cur is None or depth == 0:
+        return None
+    m_ = _re.match(r"^const (-?\d+)_[iu](?:8|16|32|64|128|size)$", cur)
+    if m_:
+        v = mk_int(int(m_.group(1)))
+    elif cur.startswith("const "):
+        v = ("cst", cur[len("const "):], ty.lstrip("&"))
+    else:
+        v = ("cst", cur, ty.lstrip("&"))
+    for _ in range(depth):
+        v = ("ref", ("constval", v))
+    return v
+
+
 UNIT = ("unit",)
 FNAMES = {}  # field place term -> source name of the field (for reports only)
 TRUE = ("int", 1)
@@ -191,6 +231,10 @@ def places_disjoint(p, q):
         # pointer (derefs of references to locals are resolved to the local itself by place_term);
         # two different pointers may alias
         if cp[0][0] in ("local", "constval") or cq[0][0] in ("local", "constval"):
+            return True
+        # referents of two distinct reference parameters: a &mut parameter is noalias, and through
+        # two shared references nothing is written
+        if cp[0][0] == "deref" and cq[0][0] == "deref" and cp[0][1][0] == "param" and cq[0][1][0] == "param" and cp[0][1][1] != cq[0][1][1]:
             return True
         return False
     for a, b in zip(cp[1:], cq[1:]):
@@ -382,6 +426,7 @@ class Interp:
         self.block_states = {}  # bb -> list of entry states
         self.final_states = []  # states at `return`
         self.backedge_states = {}  # head -> list of states arriving over a back edge
+        self.array_len = {}  # place of a fixed-size array that was unsized -> its length
         self.discr_names = {}  # discriminant term -> {value: variant name}
         self.loop_entry = {}  # head -> list of environments on entry from outside (before havoc)
         self.diverged = []  # states that ended in a call without target / unreachable
@@ -579,6 +624,8 @@ class Interp:
 
         for n, a in enumerate(args):
             ty = argtys[n] if argtys and n < len(argtys) else None
+            if ty and ty.startswith("&") and not ty.startswith("&mut"):
+                continue  # nothing is written through a shared reference (no interior mutability assumed)
             if not walk(a, ty):
                 return None
         return tuple(fr)
@@ -767,9 +814,9 @@ class Interp:
             pr = self.body.j.get("promoted") or []
             n = o["uneval"]["promoted"]
             if n < len(pr):
-                m_ = _PROMOTED_RE.match(pr[n])
-                if m_:
-                    return ("ref", ("constval", ("cst", m_.group(1), o["ty"].lstrip("&"))))
+                v_ = _promoted_value(pr[n], o["ty"])
+                if v_ is not None:
+                    return v_
         if "uneval" in o:
             u = o["uneval"]
             t = ("assoc", u.get("trait") or u["path"], u.get("assoc_name"), tuple(u["args"]), u.get("promoted"))
@@ -833,6 +880,8 @@ class Interp:
                 return mk_not(a)
             if rv["op"] == "PtrMetadata":
                 # slice length of a reference
+                if a[0] == "ref" and a[1] in self.array_len:
+                    return mk_int(self.array_len[a[1]])
                 if a[0] == "ref":
                     return ("len", self.read_pl(st, a[1]))
                 return ("len", a)
@@ -843,6 +892,9 @@ class Interp:
             a = self.operand(st, rv["op"])
             ck = rv["ck"]
             if ck.startswith("PointerCoercion") or ck in ("PtrToPtr",):
+                m_ = _ARR_RE.match(rv.get("from") or "")
+                if m_ and isinstance(a, tuple) and a and a[0] == "ref":
+                    self.array_len[a[1]] = int(m_.group(1))
                 return a  # unsizing and pointer casts keep the referent
             if is_int(a) and ck == "IntToInt":
                 return _wrap_int(a[1], rv["ty"])
@@ -1375,6 +1427,8 @@ def ax_min(I, st, fn, args, bb):
 
 def ax_len(I, st, fn, args, bb):
     pl = _ref_place(args[0])
+    if pl in I.array_len:
+        return mk_int(I.array_len[pl])
     return ("len", I.read_pl(st, pl))
 
 
